@@ -132,6 +132,26 @@ def render_write_frame(spec):
         obls.append(ob('%s.write_frame' % q, not w,
                        '%s writes no attribute of the template instance, its class or a module '
                        '(modifies = {})' % q, {'writes': w}))
+    # compiling (parse / _compile / digest) is a function of the instance's configuration: it
+    # reads options, it never changes them (otherwise one file version would influence the next)
+    for rel, q, allowed in (('zpt/template.py', 'PageTemplate.parse', ()),
+                            ('zpt/template.py', 'PageTemplate.digest', ()),
+                            ('template.py', 'BaseTemplate.digest', ()),
+                            ('template.py', 'BaseTemplate._compile', ()),
+                            ('template.py', 'BaseTemplate._cook', ('source',))):
+        fn = find(parse(rel), q)
+        w = [x for x in self_writes(fn) if x[0] not in allowed]
+        obls.append(ob('%s.write_frame' % q, not w,
+                       '%s does not modify the template instance (modifies = {%s})'
+                       % (q, ', '.join(allowed)), {'writes': w}))
+    # the cache key is computed from the body exactly as given
+    for rel, q in (('zpt/template.py', 'PageTemplate.digest'), ('template.py', 'BaseTemplate.digest')):
+        fn = find(parse(rel), q)
+        rebinds = [n.lineno for n in ast.walk(fn)
+                   if isinstance(n, ast.Name) and n.id == 'body' and isinstance(n.ctx, ast.Store)]
+        obls.append(ob('%s.body_unmodified' % q, not rebinds,
+                       '%s hashes the template body exactly as given (no normalisation that the '
+                       'compiler does not also apply)' % q, {'body_rebound_at_lines': rebinds}))
     # per-render objects are built from fresh containers
     fn = find(parse('zpt/template.py'), 'PageTemplate.render')
     fresh_ok, seen = False, []
